@@ -93,6 +93,20 @@ def numba_templates():
     return [("numba", v) for v in range(6)]
 
 
+_VRACE_T0 = ["add", "to_xyz", "to_rhophietatau", "unit", "scale", "rotateZ", "cross", "boost_p4", "to_Vector4D", "rho", "deltaR", "transform3D"]
+_VRACE_BAD = ["nonnumeric?", "nonnumericc16", "nonnumericU3", "nonnumericm8[s]", "badnames", "boolval", "missing", "dup", "baddtype", "wrongdim", "zip_notdict", "coordcls"]
+
+
+def vrace_templates():
+    """A validating / failing call from one thread while another is parked inside an ordinary operation."""
+    return [("vrace", a, b) for a in _VRACE_T0 for b in _VRACE_BAD]
+
+
+def mutsym_templates():
+    """Symbolic private targets: out= forms and in-place operators with pooled symbolic operands."""
+    return [("mutsym", v) for v in range(24)]
+
+
 def register_templates():
     """register_awkward() racing with Awkward construction and use: 24 variants x 4 schedules."""
     return [("register", v, q) for q in range(4) for v in range(24)]
@@ -119,6 +133,12 @@ def gen_case(seed, tier, focus):
     elif idx >= 60000:
         tpl = numba_templates()
         t = tpl[(idx - 60000) % len(tpl)]
+    elif idx >= 50000:
+        tpl = vrace_templates()
+        t = tpl[(idx - 50000) % len(tpl)]
+    elif idx >= 40000:
+        tpl = mutsym_templates()
+        t = tpl[(idx - 40000) % len(tpl)]
     else:
         tpl = templates()
         t = tpl[idx % len(tpl)]
@@ -126,7 +146,7 @@ def gen_case(seed, tier, focus):
     g = G.WorldGen(rng.randrange(1 << 30), tier, focus or "C20")
     g.rng = rng
     fn = {"raise": _raise_case, "rendezvous": _rendezvous_case, "register": _register_case, "mutators": _mutator_case,
-          "reach": _reach_case, "pair": _pair_case, "numba": _numba_case}[t[0]]
+          "reach": _reach_case, "pair": _pair_case, "numba": _numba_case, "vrace": _vrace_case, "mutsym": _mutsym_case}[t[0]]
     w = fn(g, rng, t)
     w["seed"] = seed
     w["directed"] = list(map(str, t))
@@ -451,3 +471,77 @@ def _numba_case(g, rng, t):
     sched = {"kind": rng.choice(("sites", "walk")), "seed": rng.randrange(1 << 30), "p": 0.3, "which": ["with", "store", "func"], "domain": "line", "observe": 0,
              "observe_mut": 0, "unblock_after_s": 60.0}
     return _finish(g, k, progs, [], sched, niso=0)
+
+
+def _bad_op(g, rng, kind):
+    if kind.startswith("nonnumeric"):
+        bad = kind[len("nonnumeric"):]
+        val = {"?": True, "c16": 1.0, "U3": "a", "m8[s]": 1}[bad]
+        names = rng.choice((["x", "y"], ["rho", "phi", "z"], ["px", "py", "pz", "E"]))
+        dtl = [[n, "f8"] for n in names]
+        dtl[rng.randrange(len(names))][1] = bad
+        row = [val if t_ == bad else 1.5 for _, t_ in dtl]
+        if rng.random() < 0.5:
+            return {"f": "vector.array", "a": [{"$": "rows", "v": [row]}], "k": {"dtype": {"$": "dtlist", "v": dtl}}}
+        cls = f"vector.{'Momentum' if 'px' in names else 'Vector'}Numpy{len(names)}D"
+        return {"f": cls, "a": [{"$": "rows", "v": [row]}], "k": {"dtype": {"$": "dtlist", "v": dtl}}}
+    if kind == "badnames":
+        return {"f": "vector.obj", "k": {"x": 1.0, "phi": 2.0}}
+    if kind == "boolval":
+        return {"f": "vector.obj", "k": {"x": True, "y": 2.0}}
+    if kind == "missing":
+        return {"f": "vector.obj", "k": {"x": 1.0, "y": 2.0, "t": 3.0}}
+    if kind == "dup":
+        return {"f": "vector.obj", "k": {"x": 1.0, "y": 2.0, "z": 1.0, "eta": 0.5}}
+    if kind == "baddtype":
+        return {"f": "vector.array", "a": [{"$": "rows", "v": [[1.0, 2.0]]}], "k": {"dtype": {"$": "dtlist", "v": [["x", "f8"], ["q", "f8"]]}}}
+    if kind == "zip_notdict":
+        return {"f": "vector.zip", "a": [[1.0, 2.0]]}
+    if kind == "coordcls":
+        return {"f": "vector.backends.numpy.AzimuthalNumpyXY", "a": [{"$": "rows", "v": [[1.0, 2.0]]}]}
+    a = [j for j, d in enumerate(g.desc) if d.be == "np"]
+    ja = a[0]
+    c = [j for j in a if g.desc[j].dim != g.desc[ja].dim]
+    return {"f": "." + rng.choice(("add", "dot", "equal", "isclose")), "a": [P(ja), P(c[0])]}
+
+
+def _vrace_case(g, rng, t):
+    _, t0name, bad = t
+    k = _base_knobs(g, 2)
+    k["backends"] = {"obj": True, "np": True, "ak": False, "sym": False}
+    for d in (2, 3, 4):
+        _mk_like(g, k, "np", [s_ for s_ in C.SYSTEMS if C.dim_of(s_) == d][rng.randrange(2 if d == 2 else 6)], rng.random() < 0.5)
+        _mk_like(g, k, "np", [s_ for s_ in C.SYSTEMS if C.dim_of(s_) == d][rng.randrange(2 if d == 2 else 6)], rng.random() < 0.5)
+    kind = "prop" if t0name in ("rho",) else ("to" if t0name.startswith("to_") and t0name not in G.METHODS else "meth")
+    mind = G.METHODS.get(t0name, (2, []))[0]
+    selfs = [j for j, d in enumerate(g.desc) if d.be == "np" and d.dim >= mind]
+    prog0 = []
+    for _ in range(2):
+        op = _call_for(g, rng.choice(selfs), kind, t0name)
+        op["cat"] = "vrace"
+        prog0.append(op)
+    prog1 = []
+    for _ in range(3):
+        o = _bad_op(g, rng, bad)
+        o["cat"] = "vrace"
+        prog1.append(o)
+    sched = {"kind": "parkop", "seed": rng.randrange(1 << 30), "p": rng.choice((1.0, 0.5)), "which": ["store", "func", "with", "flag"], "domain": "line", "observe": 0}
+    return _finish(g, k, [prog0, prog1], [], sched, niso=0)
+
+
+def _mutsym_case(g, rng, t):
+    _, variant = t
+    k = _base_knobs(g, 1 + variant % 2)
+    k["backends"] = {"obj": variant % 3 == 0, "np": False, "ak": False, "sym": True}
+    k["cats"] = {c: 0 for c in k["cats"]}
+    k["cats"]["mutate"] = 6
+    k["cats"]["prop"] = 1
+    k["nops"] = rng.choice((5, 8, 12))
+    dim = 2 + variant % 3
+    for _ in range(3):
+        g.mk_sym(k, dim=dim)
+    if k["backends"]["obj"]:
+        g.mk_obj(k, dim=dim)
+    progs = g.build_progs(k)
+    sched = {"kind": rng.choice(("walk", "sites")), "seed": rng.randrange(1 << 30), "p": 0.3, "which": ["with", "store", "func"], "domain": "line", "observe": 2}
+    return _finish(g, k, progs, [], sched, niso=1)
